@@ -73,6 +73,36 @@ func (c capture) Format(s fmt.State, verb rune) {
 	}
 }
 
+// captureSF is a SafeFormatter that writes through its SafePrinter first (nested Print/Printf, the emitters) and
+// reads the directive and calls MakeFormat afterwards: what it sees must still be the directive it was reached through.
+type captureSF struct {
+	before, after *dirState
+	format        *string
+	inner         *dirState
+	pre           int
+}
+
+func (c captureSF) SafeFormat(p redact.SafePrinter, verb rune) {
+	*c.before = readState(p, verb)
+	switch c.pre {
+	case 1:
+		p.Print("x")
+	case 2:
+		p.Printf("%5d", 1)
+	case 3:
+		p.SafeString("s")
+		p.UnsafeString("u")
+		p.SafeInt(3)
+	default:
+		p.Print(1, "a")
+		p.Print(redact.Safe(2))
+	}
+	*c.after = readState(p, verb)
+	_, f := redact.MakeFormat(p, verb)
+	*c.format = f
+	_ = redact.Sprintf(f, capture{st: c.inner})
+}
+
 // flagPrinter prints the directive it sees (width 0 and absent width alike).
 type flagPrinter struct{ tag string }
 
@@ -203,6 +233,29 @@ func runC14(c *Ctx) {
 				w.Nontrivial(h)
 			}
 			_ = verb
+		}
+		// (a') the same from a SafeFormat method that has already written through its printer.
+		{
+			var before, after, inner dirState
+			var f2 string
+			cp := captureSF{before: &before, after: &after, format: &f2, inner: &inner, pre: 1 + int(i%4)}
+			func() {
+				defer func() {
+					if r := recover(); r != nil {
+						w.Violate("C14 panic", "panic "+sprint(r)+" for directive "+q(d.text)+" (SafeFormat, writes before MakeFormat)", map[string]interface{}{"directive": d.text, "safeformat_prewrites": cp.pre})
+					}
+				}()
+				_ = redact.Sprintf(d.text, append(append([]interface{}{}, d.pre...), cp)...)
+			}()
+			w.Eval(1)
+			if before.called {
+				cs := map[string]interface{}{"directive": d.text, "safeformat_prewrites": cp.pre}
+				if before != after {
+					w.Violate("C14 state-after-writes", "directive "+q(d.text)+" seen by SafeFormat as "+before.String()+", after writing through the printer (variant "+itoa(cp.pre)+") as "+after.String(), cs)
+				} else if !inner.called || before.norm() != inner.norm() {
+					w.Violate("C14 roundtrip", "directive "+q(d.text)+" seen by SafeFormat as "+before.String()+"; MakeFormat after writing through the printer="+q(f2)+" re-creates "+inner.String(), cs)
+				}
+			}
 		}
 		// (b) under the standard fmt package, wrappers and forwarders print like the operand.
 		if verb == 'T' || verb == 'p' || verb == 'w' {
